@@ -66,7 +66,7 @@ digraph {
                 lines.push(format!(
                     "  v{v} -> v{} [label=\"{}\"{}{}];",
                     e.1,
-                    e.0,
+                    e.0.to_string().replace('\\', "\\\\").replace('"', "\\\""),
                     match e.0 {
                         Label::Greek(g) => {
                             if *g == 'ρ' || *g == 'σ' {
